@@ -11,4 +11,7 @@ EXPLANATION = ("Derived, no schedule exploration (CBMC is not asked to explore i
 ASSUMPTIONS = C16.ASSUMPTIONS + ["malloc/free/strdup are thread-safe, libm is re-entrant",
                                  "no interleaving is explored: this is a non-interference corollary, level 'other'"]
 groups = C16.groups
-audits = C16.audits
+
+
+def audits(sc, tier, seed):
+    return C16.audits(sc, tier, seed, keep_setlocale=True)
